@@ -779,5 +779,6 @@ def run_all(ctx):
     run_ducks(ctx)
     run_copies(ctx)
     run_owns(ctx)
-    run_sizes(ctx, dtypes=("float64",) if ctx.quick else ("float64", "float32"))
+    if not ctx.quick:      # quick: sizes / broadcasting pairs are covered by the batch, large (switch-over sizes) and layout streams
+        run_sizes(ctx, dtypes=("float64", "float32"))
     run_interleave(ctx, again=True)        # and once more after everything else has run
